@@ -2152,7 +2152,11 @@ def eval_resolve(ctx: fw.Ctx, st: fw.Stream, trees: list[dict], styles: list) ->
         try:
             want = expected_inline(tree, refs)
         except ExpectDependencyError as e:
-            raise fw.InfraError(f"fault-free tree needs a dependency error: {e}: {case}")
+            # (a search-path permutation can make a module unreachable) the reference says: InvalidDependencyError
+            status, ast = resolve_tree(tree)
+            if status != "dep":
+                st.fail(f"the reference lookup finds no file ({e}) but resolution gave: {status}", case)
+            continue
         status, ast = resolve_tree(tree)
         if status != "ok":
             st.fail(f"resolution failed: {status}: {ast}", case)
@@ -2879,6 +2883,43 @@ LEAN_OBLIGATIONS.update({
         partial_hypotheses=["no theorem about comment attachment yet (the position theorem is the only lexer-loop theorem); covered by T2:lex and the oracle stream"],
     ),
 })
+LAYOUT_OBL = ["Tumfl.Props.C08_remove_separators", "Tumfl.Props.C08_add_spacing", "Tumfl.Props.C08_remove_orphaned", "Tumfl.Props.C08_resolve_tokens",
+              "Tumfl.Props.C08_join", "Tumfl.Props.C08_indent_brackets", "Tumfl.Props.C08_string_wrap", "Tumfl.Props.C08_wrap_progress", "Tumfl.Props.C02_boundary"]
+PIECE_OBL = ["Tumfl.Props.C11_roundtrip", "Tumfl.Props.C11_emit_is_par", "Tumfl.Props.C11_emit_roundtrip", "Tumfl.Props.C11_minified", "Tumfl.Inst.brackets_sound_all",
+             "Tumfl.Props.C06_quoted", "Tumfl.Props.C06_long", "Tumfl.Props.C06_forms", "Tumfl.Props.C07_partial", "Tumfl.Props.C13_emit_on"]
+FORMAT_MODULES = ["Tumfl.Props.C08", "Tumfl.Props.C11", "Tumfl.Props.C06", "Tumfl.Props.C07", "Tumfl.Props.C13"]
+FORMAT_PARTIAL = ["the composition itself is NOT proved: the theorems listed are the proved pieces it rests on (layout passes keep the pieces; adjacent pieces do not fuse "
+                  "when sep_required says so; operator brackets, string literals, numerals and comment pieces are right); that the emitted pieces of statements, calls, "
+                  "tables and function bodies are a valid yield of the tree (F2 of DESIGN section 6) and the parser simulation for statements are covered by the T2 streams "
+                  "(every stage of format compared with the real code) and by the reference-parser oracle on the generated, enumerated and corpus programs",
+                  "K1, K2, K3 are known findings"]
+for _p, _extra in (("C01", []), ("C02", []), ("C08", []), ("C15", [])):
+    LEAN_OBLIGATIONS[_p] = dict(
+        modules=FORMAT_MODULES,
+        obligations=LAYOUT_OBL + PIECE_OBL,
+        extractors=ALL_T1,
+        tie_names=["T1:Brackets", "T1:FmtTables", "T1:LexTables", "T1:Ladder", "T2:format (emit and every layout pass, stage by stage, and the final text)"],
+        partial_hypotheses=FORMAT_PARTIAL + (["idempotence itself (C15) has no theorem: byte comparison of two minify passes in the oracle stream"] if _p == "C15" else []),
+    )
+LEAN_OBLIGATIONS["C11"] = dict(
+    modules=["Tumfl.Props.C11"],
+    obligations=["Tumfl.Props.C11_roundtrip", "Tumfl.Props.C11_precOK", "Tumfl.Props.C11_emit_is_par", "Tumfl.Props.C11_emit_roundtrip", "Tumfl.Props.C11_minified",
+                 "Tumfl.Inst.brackets_sound_all"],
+    extractors=["Brackets", "FmtTables"],
+    tie_names=["T1:Brackets (bracket table re-extracted through visit_BinOp/visit_UnOp, 9568 entries, self-tested)", "T2:format"],
+    partial_hypotheses=["leaves are names (not arbitrary atoms such as calls or literals); re-lexing of the final text at character level is C02_boundary, not composed here"],
+)
+LEAN_OBLIGATIONS["C20"] = dict(
+    modules=["Tumfl.Props.C20", "Tumfl.Props.C16"],
+    obligations=["Tumfl.Props.C20_delivery", "Tumfl.Props.C20_all_comments", "Tumfl.Props.C05_comments", "Tumfl.Props.C05_long_brackets", "Tumfl.Props.C16_positions"],
+    extractors=["LexTables"],
+    tie_names=["T1:LexTables", "T2:lex (comment lists of every token, end-of-file token included)"],
+    partial_hypotheses=["`no comment text ever becomes a token and no token is swallowed by a comment` follows from the segmentation theorem together with the token-boundary "
+                        "theorems (Theory/Boundary*, C05, C07), which are not composed into one statement"],
+)
+LEAN_OBLIGATIONS["C05"]["modules"] = ["Tumfl.Props.C05", "Tumfl.Props.C20"]
+LEAN_OBLIGATIONS["C05"]["obligations"] = LEAN_OBLIGATIONS["C05"]["obligations"] + ["Tumfl.Props.C05_long_brackets", "Tumfl.Props.C05_comments"]
+LEAN_OBLIGATIONS["C05"]["partial_hypotheses"] = ["quoted strings, long brackets and comments are each proved; the dispatch in get_next_token that chooses among them is covered by C09_lexer_total and T2:lex"]
 for _pid, _ov in LEAN_OBLIGATIONS.items():
     REGISTRY[_pid].update(_ov)
 
